@@ -128,7 +128,7 @@ def main(tier, replay=None):
     rep.assumptions += [
         "input is text decodable as UTF-8; allowed outcomes: a schema, a ParserError (any subclass), an OSError "
         "for an import that cannot be read; rendering an accepted schema may only raise RendererError",
-        "'never hangs' is observed as a 10 s limit per input",
+        "'never hangs' is observed as a limit of 10 s of CPU time per parse (60 s per command-line run), not wall-clock time",
         "totality over 'any text' is sampled (mutations of valid schemas, token soup, truncations), not proved; the "
         "specification contributes the outcome typing, the exact acceptance verdict for declaration-level mutants "
         "and the termination bound of the Compiler machine",
